@@ -1024,6 +1024,16 @@ class C10(UnitChanSpec):
             else:
                 units = conformant_sequence(rng, pool)
             seqs.append({"cfg": cfg, "units": units})
+        if idx % 8000 == 7:
+            # "long stream" arm (tens of seconds per run: one in 8000): every
+            # sequence carries a padding unit of about a mebibyte, so that later
+            # sequences start beyond, and straddle, 64 KiB / 1 MiB offsets —
+            # whatever block size a reader might use
+            for sq in seqs[:3]:
+                us = sq["units"]
+                if us and us[0].get("t") == "H" and us[0].get("lvl") not in (64, 65, 66):
+                    us.insert(1, {"t": "X", "n": rng.choice([1048576 + 100, 1100000, 600000, 70000]), "fill": rng.randrange(256)})
+            del seqs[3:]
         return {"seqs": seqs}
 
     def shrink(self, case):
